@@ -1042,3 +1042,31 @@ def _try_fold(I, itp, init, f):
 
 
 _consuming("try_fold", _try_fold)
+
+
+def _iter_cmp(I, a, b):
+    """Iterator::cmp: lexicographic"""
+    pa, pb = Ptr(Cell(a)), Ptr(Cell(b))
+    while True:
+        x = it_next(I, pa); y = it_next(I, pb)
+        if x.idx == 0 and y.idx == 0: return I.ordering(0)
+        if x.idx == 0: return I.ordering(-1)
+        if y.idx == 0: return I.ordering(1)
+        c = I.cmp_generic(x.f[0], y.f[0], "u8")
+        if c: return I.ordering(c)
+
+
+_consuming("cmp", _iter_cmp)
+_consuming("eq", lambda I, a, b: _iter_cmp(I, a, b).var == "Equal")
+
+
+@summary("RangeInclusive::new", "core::ops::RangeInclusive::new", "std::ops::RangeInclusive::new")
+def _(I, a, b): return Agg([a, b, False], "RangeInclusive")
+@summary("RangeInclusive::contains", "core::ops::RangeInclusive::contains", "std::ops::RangeInclusive::contains")
+def _(I, rp, xp):
+    r = I.deref(rp); x = I.deref(xp)
+    return _and(I.binop("Le", r.f[0], x, "usize"), I.binop("Le", x, r.f[1], "usize"))
+@summary("Range::contains", "core::ops::Range::contains", "std::ops::Range::contains")
+def _(I, rp, xp):
+    r = I.deref(rp); x = I.deref(xp)
+    return _and(I.binop("Le", r.f[0], x, "usize"), I.binop("Lt", x, r.f[1], "usize"))
